@@ -29,7 +29,7 @@ from lib.common import dec_list, enc_list
 
 UTC = datetime.timezone.utc
 
-NUMBER_GRID = [(38, 0), (38, 37), (10, 2), (18, 6), (1, 0), (5, 0), (38, 10), (9, 9)]
+NUMBER_GRID = [(38, 0), (38, 37), (10, 2), (18, 6), (1, 0), (5, 0), (38, 10), (9, 9), (20, 15), (12, 12), (15, 10), (30, 29)]
 INT_FAMILY = ["INT", "INTEGER", "BIGINT", "SMALLINT", "TINYINT", "BYTEINT"]
 FLOAT_FAMILY = ["FLOAT", "FLOAT4", "FLOAT8", "DOUBLE", "DOUBLE PRECISION", "REAL"]
 TEXT_FAMILY = ["VARCHAR", "VARCHAR(2000)", "STRING", "TEXT", "CHAR(2000)"]
@@ -70,7 +70,10 @@ JSON_DOCS = {
 }
 
 
-def _values(rnd, ty: str, n: int) -> list:
+DOLLAR_TEXT = ["pay $amount now", "US$100", "$amount", "$AMOUNT$amount", "a$b_1 $x1 $$ $", "100% $amount %s"]
+
+
+def _values(rnd, ty: str, n: int, dollar: bool = False) -> list:
     """n Python values exactly representable in the Snowflake type, edges first"""
     fam = _family(ty)
     if fam == "bool":
@@ -88,6 +91,9 @@ def _values(rnd, ty: str, n: int) -> list:
         pool = ["", " ", "a", "é😀𝄞", "it's", "back\\slash", "line1\nline2\ttab", "%s ? $x ; -- /* */", "x" * 1000, "\"dq\"", "NULL"]
         if ty == "CHAR" or ty == "CHARACTER":
             pool = ["a", "é", ""]
+        elif dollar:
+            # `$name` inside a bound value is data: never inlined, whether or not a session variable of that name exists
+            pool = DOLLAR_TEXT + pool
     elif fam == "date":
         pool = [datetime.date(1, 1, 1), datetime.date(9999, 12, 31), datetime.date(1969, 12, 31), datetime.date(1970, 1, 1), datetime.date(2020, 2, 29),
                 datetime.date.fromordinal(rnd.randrange(1, 3652059))]
@@ -202,7 +208,15 @@ def _run_case(conns, case) -> dict:
     conn = conns["qmark"] if path == "qmark" else conns["py"]
     cur = conn.cursor()
     out = {"err": None}
+    setvar = case.get("setvar")
     try:
+        if setvar:
+            cur.execute("set amount = 5")
+        elif setvar is False:
+            try:
+                cur.execute("unset amount")
+            except Exception:
+                pass
         cur.execute("create or replace table BY (x int, y varchar)")
         cur.execute("insert into BY values (7, 'by'), (NULL, NULL)")
         tgt_cols = f"(id int, c {ty})"
@@ -257,6 +271,11 @@ def _run_case(conns, case) -> dict:
         out["counts"] = counts
         cur.execute("select id, c from T order by id")
         out["rows"] = [[r[0], _canon(r[1])] for r in cur.fetchall()]
+        try:
+            d = cur.description[1]
+            out["descr"] = [d.type_code, d.precision, d.scale]
+        except Exception as e:
+            out["descr"] = ["raises", type(e).__name__, None]
         out["raw_json"] = None
         if fam == "json":
             out["raw_json"] = [r[1][1] for r in out["rows"]]
@@ -269,6 +288,12 @@ def _run_case(conns, case) -> dict:
         out["by"] = [list(r) for r in cur.fetchall()]
     except Exception as e:
         out["err"] = [type(e).__name__, str(e)[:200]]
+    finally:
+        if setvar:
+            try:
+                cur.execute("unset amount")
+            except Exception:
+                pass
     return out
 
 
@@ -339,8 +364,9 @@ def _cases(chk, rnd) -> list[dict]:
     for ty in ALL_TYPES:
         for path in PATHS:
             for rep in range(per):
-                vals = _values(rnd, ty, 4)
                 fam = _family(ty)
+                dollar = fam == "text" and path in ("pyformat", "qmark", "write_pandas", "insert-select", "ctas", "clone")
+                vals = _values(rnd, ty, 4, dollar=dollar and path in ("pyformat", "qmark", "write_pandas"))
                 if path == "write_pandas" and fam == "int":
                     vals = [v for v in vals if -(2**63) <= v < 2**63] or [0]      # an int64 dataframe column cannot hold more
                     nullpos = None       # nor a NULL
@@ -351,7 +377,10 @@ def _cases(chk, rnd) -> list[dict]:
                     vals = [v for v in vals if isinstance(v, (dict, list))] or [{"a": 1}]
                 if nullpos is not None:
                     vals.insert(nullpos, None)
-                cases.append({"kind": "value", "ty": ty, "path": path, "vals": vals})
+                case = {"kind": "value", "ty": ty, "path": path, "vals": vals}
+                if dollar:
+                    case["setvar"] = rnd.choice([True, True, False])     # a session variable `amount` is SET on the connection / not set
+                cases.append(case)
     # all-NULL and empty variants for a few types
     for ty in ("NUMBER(10,2)", "VARCHAR", "TIMESTAMP_TZ", "VARIANT", "INT"):
         for path in ("literal", "clone", "ctas", "insert-select"):
@@ -394,6 +423,7 @@ def _val_token(ty: str, v) -> str | None:
 
 
 BY_EXPECT = [[7, "by"], [None, None]]
+FIELD_CODES = {"fixed": 0, "real": 1, "text": 2, "date": 3, "variant": 5, "timestamp_tz": 7, "timestamp_ntz": 8, "binary": 11, "time": 12, "boolean": 13}
 
 
 def _check_value(chk, case, real, tyrep, fitreps):
@@ -404,6 +434,9 @@ def _check_value(chk, case, real, tyrep, fitreps):
     chk.case((ty, path, repr(vals)), nontrivial=any(v is not None for v in vals),
              sample={"type": ty, "path": path, "values": [repr(v)[:40] for v in vals]} if path == "clone" and fam in ("tz", "number") else None)
     rcase = {"kind": "value", "ty": ty, "path": path, "vals": [_ser(v) for v in vals]}
+    if "setvar" in case:
+        rcase["setvar"] = case["setvar"]
+        chk.count("dollar-text:" + ("var-set" if case["setvar"] else "var-unset"))
     if tyrep.get("kind") != "ok":
         chk.violation(f"type {ty} not in the model", rcase, broken="C01_types_supported", failing_input=False)
         return
@@ -440,6 +473,13 @@ def _check_value(chk, case, real, tyrep, fitreps):
     if real["typeof"] and real["typeof"][0] != want_duck:
         chk.violation(f"column `c {ty}` written via {path} is stored as DuckDB {real['typeof'][0]}, the model's toDuck says {want_duck}", rcase,
                       broken="C01_width_partial (correspondence with toDuck)")
+        return
+    dn = tyrep["descr"].split(",")
+    want_descr = [FIELD_CODES.get(dn[0]), None if dn[1] == "-" else int(dn[1]), None if dn[2] == "-" else int(dn[2])]
+    if real.get("descr") != want_descr:
+        chk.violation(f"column `c {ty}` written via {path}: cursor.description reports (type_code, precision, scale) = {real.get('descr')}, "
+                      f"the model's sfDescr(toDuck) says {want_descr}" + (f" (declared: {tyrep['decl']})" if tyrep.get("decl", "-") != "-" else ""), rcase,
+                      broken="C01_description_numeric (correspondence with sfDescr)")
         return
     if real["by"] != BY_EXPECT:
         chk.violation(f"{ty} via {path}: bystander table changed to {real['by']}", rcase, broken="C01_clone/C01_ctas/C01_insert_select (frame)")
@@ -602,6 +642,8 @@ def replay(chk, case) -> None:
         _check_copy(chk, case, real, common.batch(lines)[0])
     else:
         c = {"kind": "value", "ty": case["ty"], "path": case["path"], "vals": [_deser(v) for v in case["vals"]]}
+        if "setvar" in case:
+            c["setvar"] = case["setvar"]
         real = _worker([c])[0]
         lines, idx = _model_lines([c])
         reps = common.batch(lines)
